@@ -23,6 +23,7 @@ RULE_TEXT = (
     "parse; no match => normal path; C16.c the module-level status statement the nop path executes is never stored "
     "through by any stage on any statement-kind trace (it stays the plain one-row status query)."
     " C16.a also: the caller's text reaches sqlglot.parse(read=snowflake) unmodified."
+    " C16.b also: nop_regexes=[] no-ops nothing; patterns derived from the configured ones count as consulted."
 )
 TRUSTED = ["CPython ast", "sqlglot.parse splits at statement boundaries and yields Semicolon nodes for comment-only parts"]
 
